@@ -10,9 +10,11 @@ from common import pmap, rng, build
 MARK = '\ue000'
 
 
-def layout(line, W, R2L, NEUT):
+def layout(line, W, R2L, NEUT, ctx=1):
     import c18
-    ordv = c18.model_ord(line + '\n', 1, R2L, NEUT)
+    ordv = c18.model_ord(line + '\n', ctx, R2L, NEUT)
+    if ordv is not None and all(ord(c) < 128 for c in line):
+        ordv = list(range(len(line) + 1))      # order=1 (default): lines of single-byte characters only are not reordered at all
     if ordv is None:
         return None
     n = len(line)
@@ -31,7 +33,18 @@ def run_case(args):
     R2L, NEUT = set(R2Ls), set(NEUTs)
     words = ['ab', 'x', 'foo', '\t', '中', 'سلام', 'بب', 'ا', ' ', ' ', '1', '-', 'é', 'ّ', 'ＷＷ']
     line = R.choice(['a', 'x ', 'ab\t']) + ''.join(R.choice(words) for _ in range(R.randint(1, 8)))
-    lay = layout(line, W, R2L, NEUT)
+    pre = ''
+    td = 1
+    x = R.random()
+    if x < 0.25:
+        # right-to-left context (first letter, or forced with td=-2): columns run from the right edge, l still moves right on screen
+        line = R.choice(['سلام', 'ب', 'ا ']) + line
+    elif x < 0.4:
+        td = R.choice([-2, -1, 2])
+        pre = ':se td=%d\n' % td
+    import c18
+    ctx = c18.model_ctx(line, td, R2L)
+    lay = layout(line, W, R2L, NEUT, ctx)
     if lay is None:
         return ('cut', None, None, False)
     vis, pos, total = lay
@@ -44,13 +57,13 @@ def run_case(args):
         # l moves one character to the right on screen and stops in front of the terminator
         seq = [i for i in vis if i != n]
         start = seq.index(0)
-        want = seq[min(start + k, len(seq) - 1)]
+        want = seq[min(start + k, len(seq) - 1)] if ctx > 0 else seq[max(start - k, 0)]
     elif kind == 'h':
         k = R.randint(1, n + 2)
         keys = '$' + 'h' * k
         seq = [i for i in vis if i != n]
         start = seq.index(n - 1)
-        want = seq[max(start - k, 0)]
+        want = seq[max(start - k, 0)] if ctx > 0 else seq[min(start + k, len(seq) - 1)]
         if line[n - 1] in R2L:
             return ('cut', None, None, False)
     else:
@@ -66,11 +79,11 @@ def run_case(args):
         if col - 1 >= pos[n]:
             # on or beyond the terminator's cell: the cursor is pulled back to the last character of the line
             want = n - 1
-    data = (keys + 'i' + MARK + '\x1b:w! out\n').encode('utf-8')
+    data = (pre + keys + 'i' + MARK + '\x1b:w! out\n').encode('utf-8')
     r, d = common.run_vi(vi, data, files={'f1': (line + '\n').encode('utf-8')}, timeout=60, cols=200)
     out = common.readf(d, 'out')
     common.rmcase(d)
-    wit = {'index': idx, 'line': line, 'keys': keys}
+    wit = {'index': idx, 'line': line, 'keys': pre + keys, 'context': ctx}
     rep = common.san_report(r)
     if rep:
         return (rep, 'sanitizer/crash: line %r keys %r: %s' % (line, keys, r.err[-300:].decode('latin-1')), wit, False)
